@@ -506,6 +506,14 @@ func (h *harness) doMsg(step int, op Op) *kit.Result {
 		return fail("", "step %d: P1 want-list of peer %d has %d entries, limit %d", step, pi, len(after), h.c.Cfg.Limit)
 	}
 
+	// a want of this message that is not on the list afterwards lost its place while the
+	// message was handled; the engine may have queued a task for it all the same (keyEvicted)
+	for _, ci := range wantOrder {
+		if _, ok := after[ci]; !ok {
+			h.stray[pi][ci] = true
+		}
+	}
+
 	// overflow predicates
 	E := before
 	if op.Full {
@@ -546,11 +554,6 @@ func (h *harness) doMsg(step int, op Op) *kit.Result {
 			admitted = append(admitted, ci)
 		} else {
 			rejected = append(rejected, ci)
-		}
-	}
-	for _, ci := range wantOrder {
-		if _, ok := after[ci]; !ok {
-			h.stray[pi][ci] = true // newcomer or re-requested entry that lost its place
 		}
 	}
 	var surv, evicted []int // pre-existing entries not touched by this message
@@ -1183,7 +1186,7 @@ func sample(c Case) any {
 var spec = kit.Spec[Case]{
 	Prop: "C36", Name: "main",
 	Rule:  "decision engine in a synctest bubble: generated script (<=30/45 steps) of want-list messages (full/incremental, ties, cancels, duplicate, identity and oversize CIDs) from 1-3 peers, blockstore add+notify/remove, take-envelope(+MessageSent+Sent), disconnect, tick; limits 1..32, replace size 0/8/1024, filter, maxCidSize, targetMessageSize; per-envelope oracle, want-list subset/limit invariant, overflow predicates P1-P5, answered-at-quiescence; non-trivial = an overflow with >=2 distinct priorities among the existing entries, or a block removed while an accepted want for it was unanswered",
-	Quick: 1500, Thorough: 5000,
+	Quick: 4000, Thorough: 12000,
 	Gen: gen, Run: run, Sample: sample, Journal: true,
 }
 
